@@ -299,7 +299,7 @@ class Decoder(Coder):
         min_value = bit_reader.read_bytes(nbytes_min_value)
         nbits_diff = bit_reader.read_uint(NBITS_FOR_NBITS_DIFF)
 
-        if min_value in (b'\0' * nbytes_min_value or b'\xff' * nbytes_min_value):
+        if nbits_diff != 0 and min_value in (b'\0' * nbytes_min_value or b'\xff' * nbytes_min_value):
             min_value = b''
 
         # special cases: all missing or all equals
